@@ -58,6 +58,9 @@ class C19(Prop):
                 tl = (t[0],) + tuple(r + ('extra', 9) if i % 2 == 0 else (r[:2] if i % 3 == 1 else r) for i, r in enumerate(t[1:]))
                 yield Case('transform', ('convert', (('k', ('fn', 3)),), pol, ev, None, tl), meta)
                 yield Case('transform', ('convert', (('k', ('fn', 3)), ('a', ('fn', 0))), pol, ev, None, tl), meta)
+                # a method-name converter ('upper') meets None cells: a failing conversion like any other
+                tn = (t[0],) + tuple((rng.choice([0, 1, 'b']), None if f else r[1], r[2]) for r, f in zip(t[1:], fails))
+                yield Case('transform', ('convert', (('a', ('fn', 0)),), pol, ev, None, tn), dict(meta, fail_a_none=True))
                 # failing cells that are tuples (empty, singleton, longer)
                 tt = (t[0],) + tuple((rng.choice([(), (1,), (1, 'x'), (None, 2, 3)]),) + r[1:] if r[0] in (2, 'x') else r
                                      for r in t[1:])
@@ -210,6 +213,8 @@ class C19(Prop):
         t = case.arg[-1]
         pol = case.arg[2] if nm in ('convert', 'fieldmap') else case.arg[3]
         fails = [r[0] in (2, 'x') or isinstance(r[0], tuple) for r in t[1:]]
+        if case.meta.get('fail_a_none'):
+            fails = [len(r) > 1 and r[1] is None for r in t[1:]]
         if nm == 'convert' and case.arg[4] is not None:
             fails = [False for _ in fails]          # the guards used here reject every cell the converter fails on
             if impl_obs[0] == 'li' and any(tuple(codec.canon(x) for x in r) != o[1]
@@ -262,7 +267,7 @@ class C19(Prop):
     def nontrivial(self, case):
         if case.op in ('const_true', 'cfg_default', 'odd_values'):
             return any(case.arg[-1])
-        return any(r[0] in (2, 'x') or isinstance(r[0], tuple) for r in case.arg[-1][1:])
+        return any(r[0] in (2, 'x') or isinstance(r[0], tuple) or (len(r) > 1 and r[1] is None) for r in case.arg[-1][1:])
 
 
 PROP = C19
